@@ -20,7 +20,7 @@ RULE = ("abstract programs with mid-circuit and terminal measurements (multi-qub
         "outcomes with probability >1e-6; distinct by program text + simulator configuration")
 ASSUMPTIONS = ["catalogue matrices are ground truth", "confusion map before invert mask, as the MeasurementGate docstring says",
                "branches below 1e-6 probability are not forced (complex64 noise floor)"]
-MIN_EVAL = {"run-distribution==born": 150, "simulate-branch-states==collapse": 40, "free-measure-functions": 100,
+MIN_EVAL = {"clifford-run-distribution==born": 80, "run-distribution==born": 150, "simulate-branch-states==collapse": 40, "free-measure-functions": 100,
             "repetitions-independent": 30}
 MUST_REACH = [
     "cirq/sim/simulator_base.py:SimulatorBase._run",
@@ -33,6 +33,8 @@ MUST_REACH = [
     "cirq/sim/density_matrix_utils.py:measure_density_matrix",
     "cirq/sim/density_matrix_utils.py:sample_density_matrix",
     "cirq/sim/simulation_product_state.py:SimulationProductState.sample",
+    "cirq/qis/clifford_tableau.py:CliffordTableau._measure",
+    "cirq/sim/clifford/stabilizer_state_ch_form.py:StabilizerStateChForm.measure",
     "cirq/ops/classically_controlled_operation.py:ClassicallyControlledOperation._act_on_",
     "cirq/value/condition.py:KeyCondition.resolve",
     "cirq/value/condition.py:SympyCondition.resolve",
@@ -459,10 +461,79 @@ def sec_step_sample(ctx, rng, case):
     ctx.distinct((tuple(P.describe(steps)), kind), nontrivial=len(steps) >= 2)
 
 
+def sec_clifford(ctx, rng, case):
+    """the Clifford simulators (CH form and tableau) on stabilizer programs with mid-circuit measurements, invert masks,
+    repeated keys and feed-forward: exact outcome distribution == Born rule, and == the state-vector simulator's"""
+    import cirq
+    from vf.props import c13 as C13
+
+    n = int(rng.integers(1, 5))
+    dims = (2,) * n
+    qubits = P.make_qubits(rng, dims)
+    steps, digits, keys, used = [], 0, ["a", "b", "c", "d"], []
+    terminal_only = rng.random() < 0.25
+    nsteps = int(rng.integers(2, 14))
+    for i in range(nsteps):
+        r = rng.random()
+        if (not terminal_only) and r < 0.25 and digits < 6:
+            w = tuple(int(x) for x in rng.choice(n, size=int(rng.integers(1, min(n, 2) + 1)), replace=False))
+            key = keys[int(rng.integers(len(keys)))] if (used and rng.random() < 0.3) else keys[min(len(set(used)), len(keys) - 1)]
+            if key in used and any(len(s_["w"]) != len(w) for s_ in steps if s_["t"] == "M" and s_["key"] == key):
+                continue  # a repeated key keeps its width
+            st = {"t": "M", "key": key, "w": w}
+            if rng.random() < 0.3:
+                st["mask"] = tuple(bool(b) for b in rng.integers(0, 2, size=len(w)))
+            used.append(key)
+            digits += len(w)
+            steps.append(st)
+        elif (not terminal_only) and r < 0.37 and used:
+            steps.append({"t": "C", "cond": {"t": "key", "key": used[int(rng.integers(len(used)))], "index": -1}, "inner": C13._clifford_step(rng, n, cirq)})
+        else:
+            steps.append(C13._clifford_step(rng, n, cirq))
+    if terminal_only or not used:
+        free = list(range(n))
+        rng.shuffle(free)
+        for j, key in enumerate(keys[: int(rng.integers(1, 3))]):
+            if not free:
+                break
+            k = int(rng.integers(1, min(2, len(free)) + 1))
+            w, free = tuple(free[:k]), free[k:]
+            st = {"t": "M", "key": key + "t", "w": w}
+            if rng.random() < 0.3:
+                st["mask"] = tuple(bool(b) for b in rng.integers(0, 2, size=len(w)))
+            steps.append(st)
+    circuit = P.to_circuit(steps, qubits, rng, ["greedy", "serial"][int(rng.integers(2))])
+    ref = I.distribution(I.run(P.to_ref(steps), dims))
+    which = ["CliffordSimulator", "CliffordSimulator-nosplit", "StabilizerSampler"][int(rng.integers(3))]
+    wit = dict(n=n, program=P.describe(steps), simulator=which, terminal=_is_terminal_only(steps))
+
+    def run(rng_obj):
+        if which == "CliffordSimulator":
+            res = cirq.CliffordSimulator(seed=rng_obj).run(circuit, repetitions=1)
+        elif which == "CliffordSimulator-nosplit":
+            res = cirq.CliffordSimulator(seed=rng_obj, split_untangled_states=False).run(circuit, repetitions=1)
+        else:
+            res = cirq.StabilizerSampler(seed=rng_obj).run(circuit, repetitions=1)
+        return _records_key(res)
+
+    ex = SR.explore(run, max_paths=800, min_branch=1e-9)
+    if ex.over_budget:
+        ctx.event("explorer-over-budget")
+        return
+    got = ex.distribution()
+    tv = L.tv_distance(got, ref)
+    ctx.check(tv <= 1e-9 and abs(ex.total() - 1) < 1e-9, "clifford-run-distribution==born", "C02:clifford-run-distribution:" + which,
+              lambda: "total variation %.3g between %s's exact outcome distribution and the Born rule" % (tv, which),
+              got={str(k): v for k, v in list(got.items())[:8]}, want={str(k): v for k, v in list(ref.items())[:8]}, **wit)
+    ctx.distinct((n, tuple(P.describe(steps)), which), nontrivial=sum(1 for p_ in ref.values() if p_ > 1e-9) >= 2)
+    ctx.sample({"n": n, "program": P.describe(steps), "simulator": which, "paths": len(ex.paths)})
+
+
 SECTIONS = [
     ("run", sec_run, 1500, 30000, 5.0),
     ("simulate", sec_simulate, 600, 12000, 2.0),
     ("reps", sec_reps, 600, 12000, 2.0),
     ("free", sec_free, 2000, 40000, 1.0),
     ("step_sample", sec_step_sample, 600, 12000, 1.0),
+    ("clifford", sec_clifford, 500, 10000, 1.5),
 ]
